@@ -5,6 +5,7 @@ into a config, fresh accumulators when merging, no shared parse state);  R09.3 e
 R09.4 propagation of base dir / global vars / context / composed namespace to used configs;  R09.5 required / dtype
 gates and value provenance;  R09.6 the same-task conflict test is a real comparison of config identity;
 R09.7 first pass shares no task objects across namespaces;  R09.8 multi-config part selection and #part rewriting.
+R09.13 Config.repr_name names file path and part with and without namespace;  R09.4 also: a used Config object is prepared after its last namespace / context store.
 """
 from __future__ import annotations
 
